@@ -59,3 +59,20 @@ def shard(prop, tier, seed, shard, nshards):
     acc.extra["enumerated_schedule_runs"] = runs
     acc.extra["enumeration_complete"] = complete
     return acc
+
+
+def extra_coverage(tier, merged):
+    """self-test of the oracle: the history monitor against the maintainers' expected execution graphs and
+    inputs of the repository's scenario tests (DESIGN 10.8); informative, never changes the verdict"""
+    import os
+    import subprocess
+    import sys
+    import json
+    try:
+        r = subprocess.run([sys.executable, "-c",
+                            "import json; from mvf import calibrate; print('CALIB' + json.dumps(calibrate.summary()))"],
+                           capture_output=True, text=True, timeout=300, env=dict(os.environ))
+        line = [l for l in r.stdout.splitlines() if l.startswith("CALIB")]
+        return {"monitor_calibration_on_repo_scenarios": json.loads(line[-1][5:]) if line else {"error": r.stderr[-200:]}}
+    except BaseException as e:  # noqa
+        return {"monitor_calibration_on_repo_scenarios": {"error": str(e)[:200]}}
